@@ -29,35 +29,8 @@ def run(ctx):
     ctx.rule(R1, 'lock-then-pin: in every function that takes a table lock and pins a version, the lock acquisition '
                  'dominates the pin whose snapshot is used under the lock; lock_for_deletion is acquired only by '
                  'SecondaryTransaction::start (a lock taken later cannot protect the snapshot pinned at start)')
-    n = 0
     TXN = SEC + 'transaction::SecondaryTransaction'
-    for b in prog.bodies.values():
-        if not b.name.startswith(SEC):
-            continue
-        pins = done_sites(prog, b, 'VersionManager::pin')
-        locks = []
-        for l in LOCKS:
-            locks += done_sites(prog, b, l)
-        if not pins or not locks:
-            continue
-        # uses of the pinned snapshot under the lock: the transaction object built from it / the compaction it feeds
-        uses = [bb for bb, _ in b.aggregates(TXN)] + start_sites(prog, b, 'Compactor::compact_table') \
-            + start_sites(prog, b, 'Snapshot::get_rowsets_of')
-        if not uses:
-            continue
-        n += 1
-        ctx.functions_analysed.add(b.name)
-        # every path from a lock acquisition to a use must pass a pin taken after the lock
-        bad = []
-        for l in locks:
-            reach = b.reachable_from(b.succs[l], avoid=set(pins))
-            bad += [u for u in uses if u in reach]
-        ctx.ob(R1, f'{b.root}·lock≺pin', not bad,
-               f'{b.name}: table lock at blocks {locks}, VersionManager::pin at blocks {pins}, snapshot used under the lock '
-               f'at blocks {uses}; uses reachable from the lock without a fresh pin: {sorted(set(bad))}',
-               [site(b, x) for x in sorted(set(bad or uses)) + locks + pins],
-               what=f'{b.root.rsplit("::", 2)[-2]}::{b.root.rsplit("::", 1)[-1]} pins its snapshot before taking the table '
-                    f'lock: a writer that waited for the lock works on a stale snapshot (deletes lost / undone)')
+    n = lock_then_pin(ctx, prog, R1)
     ctx.floor(R1, n, 2, 'functions that both pin a version and take a table lock')
     # who acquires the deletion lock
     callers = [c for c in prog.calls_matching_all(suffix('SecondaryTable::lock_for_deletion', 'TransactionManager::lock_for_deletion'))]
@@ -259,3 +232,94 @@ def run(ctx):
 
     from rules.c07 import compaction_touches_only_what_it_merged
     compaction_touches_only_what_it_merged(ctx, prog, 'C09-R5')
+    lock_outlives_commit(ctx, prog)
+
+
+def lock_outlives_commit(ctx, prog):
+    """C09-R8: the table lock of a deleting transaction is given back only after its commit is published"""
+    from mir import operand_places
+    R8 = 'C09-R8'
+    ctx.rule(R8, 'what a DELETE decided under the table lock (which rows, in which row-sets) stays true until its delete vectors are '
+                 'published: the guard in SecondaryTransaction::delete_lock is never taken out, overwritten or dropped before '
+                 'VersionManager::commit_changes has completed - it lives as long as the transaction object. Released earlier, a compaction '
+                 'can pin the pre-delete version, merge the row-sets with the deleted rows in them and commit after the DELETE: every deleted '
+                 'row comes back')
+    F = SEC + 'transaction::SecondaryTransaction::delete_lock'
+    n_use, bad = 0, []
+    for b in prog.bodies.values():
+        if not b.name.startswith(SEC) and not b.name.startswith('<' + SEC):
+            continue
+        sites_ = []
+        for bb, st in b.stmts():
+            if st['s'] != 'assign':
+                continue
+            rv = st['rv']
+            if F in pl_fields(st['lhs']) and not (rv.get('rv') == 'agg'):
+                sites_.append((bb, 'overwritten'))
+            for pl in operand_places(rv):
+                if F in pl_fields(pl):
+                    n_use += 1
+                    if rv.get('rv') == 'ref' and rv.get('mut'):
+                        sites_.append((bb, 'borrowed mutably'))
+                    elif rv.get('rv') == 'use' and rv['op'].get('k') == 'move':
+                        sites_.append((bb, 'moved out'))
+        for c in b.calls:
+            for a in c.args:
+                if a['k'] == 'move' and F in pl_fields(a['pl']):
+                    n_use += 1
+                    sites_.append((c.bb, f'moved into {short_fn(c.fn)}'))
+        for bl_i, bl in enumerate(b.blocks):
+            t = bl['term']
+            if t['k'] == 'drop' and not bl['cleanup'] and F in pl_fields(t['pl']):
+                sites_.append((bl_i, 'dropped'))
+        if not sites_:
+            continue
+        done = done_sites(prog, b, 'VersionManager::commit_changes')
+        for bb, how in sites_:
+            ok = bool(done) and b.dominated_by_any(set(done), bb)
+            ctx.functions_analysed.add(b.name)
+            ctx.ob(R8, f'{b.root}·delete_lock·{how.split(" into ")[0].replace(" ", "-")}', ok,
+                   f'{b.name} block {bb}: delete_lock is {how}; commit_changes completes at {done}', [site(b, bb)],
+                   what=f'{b.root.rsplit("::", 1)[-1]} gives the table lock of a deleting transaction back before its commit is published '
+                        f'(delete_lock {how}): a compaction in that window works on the pre-delete version and commits after the DELETE, '
+                        'which undoes the acknowledged DELETE')
+    ctx.ob(R8, 'delete_lock·held-until-published', True, f'{n_use} reads of SecondaryTransaction::delete_lock examined', nontrivial=False)
+    ctx.floor(R8, n_use, 1, 'uses of the field SecondaryTransaction::delete_lock')
+
+
+def short_fn(n):
+    return re.sub(r'<[^<>]*>', '', n or '?').rsplit('::', 1)[-1]
+
+
+def lock_then_pin(ctx, prog, R1):
+    """every path from a table-lock acquisition to a use of the pinned snapshot passes a VersionManager::pin (shared with C10-R7)"""
+    n = 0
+    TXN = SEC + 'transaction::SecondaryTransaction'
+    for b in prog.bodies.values():
+        if not b.name.startswith(SEC):
+            continue
+        pins = done_sites(prog, b, 'VersionManager::pin')
+        locks = []
+        for l in LOCKS:
+            locks += done_sites(prog, b, l)
+        if not pins or not locks:
+            continue
+        # uses of the pinned snapshot under the lock: the transaction object built from it / the compaction it feeds
+        uses = [bb for bb, _ in b.aggregates(TXN)] + start_sites(prog, b, 'Compactor::compact_table') \
+            + start_sites(prog, b, 'Snapshot::get_rowsets_of')
+        if not uses:
+            continue
+        n += 1
+        ctx.functions_analysed.add(b.name)
+        # every path from a lock acquisition to a use must pass a pin taken after the lock
+        bad = []
+        for l in locks:
+            reach = b.reachable_from(b.succs[l], avoid=set(pins))
+            bad += [u for u in uses if u in reach]
+        ctx.ob(R1, f'{b.root}·lock≺pin', not bad,
+               f'{b.name}: table lock at blocks {locks}, VersionManager::pin at blocks {pins}, snapshot used under the lock '
+               f'at blocks {uses}; uses reachable from the lock without a fresh pin: {sorted(set(bad))}',
+               [site(b, x) for x in sorted(set(bad or uses)) + locks + pins],
+               what=f'{b.root.rsplit("::", 2)[-2]}::{b.root.rsplit("::", 1)[-1]} pins its snapshot before taking the table '
+                    f'lock: a writer that waited for the lock works on a stale snapshot (deletes lost / undone)')
+    return n
